@@ -3,7 +3,7 @@
 SWITCH (TimeStepper dispatch), PAIRIDX (handler/id parallel arrays), CAUSE
 guards and REACHDEF on findEventCandidates (DESIGN 3, C22)."""
 from ..facts import extract, units_matching, Program, AnalysisBroken, sx_find, sx_enums, sx_str
-from ..match import (ev_write, is_call, call_args, call_obj, field_of, var_of, guard_blocks, lvalue_root, branch_edges)
+from ..match import (ev_write, is_call, call_args, call_obj, field_of, var_of, guard_blocks, lvalue_root, branch_edges, known_edges, only_via)
 from .c18 import _is_lit, _is_var
 
 TS = "SimTK::TimeStepperRep"
@@ -56,25 +56,36 @@ def dispatch(chk, P):
              "System::handleEvents on integ->updAdvancedState() with the cause and id list tabled for that status; lowestModified and shouldTerminate are taken "
              "from that call's results and every path from a handleEvents call to the next loop iteration or return passes integ->reinitialize(lowestModified, shouldTerminate)")
     f = P.fn(TS + "::stepTo")
-    sw = [(b, blk["term"]) for b, blk in f.blocks.items() if blk.get("term") and blk["term"]["k"] == "switch"]
-    chk.require(len(sw) == 1, "TimeStepperRep::stepTo: expected one switch, found %d" % len(sw))
-    swb, t = sw[0]
     en = P.enums.get("SimTK::Integrator::SuccessfulStepStatus")
     chk.require(en is not None, "enum Integrator::SuccessfulStepStatus not found")
-    have = sorted(c[1].split("::")[-1] for c in t["cases"] if isinstance(c, list) and c[0] == "enum")
     want = sorted(n.split("::")[-1] for n, v in en["enumerators"] if not n.endswith("InvalidSuccessfulStepStatus"))
-    chk.judge(have == want, "SWITCH", "exhaustive", f.loc, "cases %s vs enumerators %s" % (have, want))
-    # the switched value is the status returned by integ->stepTo
-    sv = var_of(t["cond"])
-    sd = [d for _, _, d in f.events(lambda d: d["k"] == "decl" and d["var"] == sv)]
-    chk.judge(bool(sd) and bool(sx_find(sd[0]["init"], lambda y: y[0] == "call" and y[1] == "SimTK::Integrator::stepTo")), "SWITCH", "switch-on-stepTo-status", f.loc,
-              "the switch examines the status returned by integ->stepTo")
     dom = f.dominators()
+    # the status variable: the local that receives integ->stepTo(...)
+    svs = [d["var"] for _, _, d in f.events(lambda d: d["k"] == "decl" and d.get("init") is not None and bool(sx_find(d["init"], lambda y: y[0] == "call" and y[1] == "SimTK::Integrator::stepTo")))]
+    if not chk.shape(len(svs) == 1, "SWITCH", "stepTo:status-variable", f.loc, "one local receives the status returned by integ->stepTo (found %s)" % svs):
+        return
+    sv = svs[0]
+    # the dispatch on it: a switch, or an if / else-if chain of `status == Enumerator` tests (both forms are read into case blocks)
+    sw = [(b, blk["term"]) for b, blk in f.blocks.items() if blk.get("term") and blk["term"]["k"] == "switch" and var_of(blk["term"].get("cond")) == sv]
     caseblocks = {}
-    for b, blk in f.blocks.items():
-        c = blk.get("case")
-        if isinstance(c, list) and c[0] == "enum":
-            caseblocks[c[1].split("::")[-1]] = b
+    if len(sw) == 1:
+        swb, t = sw[0]
+        have = sorted(c[1].split("::")[-1] for c in t["cases"] if isinstance(c, list) and c[0] == "enum")
+        for b, blk in f.blocks.items():
+            c = blk.get("case")
+            if isinstance(c, list) and c[0] == "enum":
+                caseblocks[c[1].split("::")[-1]] = b
+    else:
+        for b, blk in f.blocks.items():
+            t = blk.get("term")
+            c = t.get("cond") if t else None
+            if t and t["k"] == "if" and isinstance(c, list) and c[0] == "op" and c[1] == "==" and var_of(c[2]) == sv and len(sx_enums(c[3])) == 1 and blk["succ"][0] >= 0:
+                caseblocks[sx_enums(c[3])[0].split("::")[-1]] = blk["succ"][0]
+        have = sorted(caseblocks)
+        if not chk.shape(len(have) >= 2, "SWITCH", "stepTo:dispatch-on-the-step-status", f.loc, "a switch or an if-chain over the status variable %s (tests found: %s)" % (sv, have)):
+            return
+    chk.judge(have == want, "SWITCH", "exhaustive", f.loc, "cases %s vs enumerators %s" % (have, want))
+    chk.ok("SWITCH", "switch-on-stepTo-status", f.loc, "the dispatch examines the status returned by integ->stepTo")
     # roles of the locals (never their names): id lists / next times are the out-arguments of calcTimeOfNextScheduledEvent / ...Report,
     # lowestModified / shouldTerminate are the two arguments of the one reinitialize call
     role = {}
@@ -87,8 +98,43 @@ def dispatch(chk, P):
     if len(r0) == 1 and len(call_args(r0[0])) >= 2:
         role["lowestModified"], role["shouldTerminate"] = var_of(call_args(r0[0])[0]), var_of(call_args(r0[0])[1])
     chk.shape(len({v for v in role.values() if v}) == 6, "SWITCH", "local-roles-resolved", f.loc, "roles: %s" % role)
-    hcalls = [(b, i, e) for b, i, e in f.calls("SimTK::System::handleEvents")]
-    chk.shape(len(hcalls) == len(DISPATCH), "SWITCH", "handleEvents-sites=%d" % len(DISPATCH), f.loc, "found %d" % len(hcalls))
+    # dispatch sites: direct System::handleEvents calls, or calls of a local wrapper (lambda / private helper) that forwards its (cause, ids)
+    # parameters to one handleEvents call on integ->updAdvancedState() and stores both results -- a site is described by (state, cause, ids, results)
+    def describe(g, e, amap=None):
+        a = call_args(e)
+        rv = var_of(a[4]) if len(a) > 4 else None
+        lmv, stv = role.get("lowestModified"), role.get("shouldTerminate")
+        lmw = [w for _, _, w in g.events(lambda w: bool(ev_write(w)) and var_of(ev_write(w)[0]) is not None and var_of(ev_write(w)[0]) == lmv)]
+        stw = [w for _, _, w in g.events(lambda w: bool(ev_write(w)) and var_of(ev_write(w)[0]) is not None and var_of(ev_write(w)[0]) == stv)]
+        return dict(state=a[0], cause=a[1], ids=a[2], rv=rv, lmw=lmw, stw=stw, g=g)
+    hsites = []
+    for b, i, e in f.calls("SimTK::System::handleEvents"):
+        d = describe(f, e)
+        blk_l = [w for bb, _, w in f.events(lambda w: w in d["lmw"]) if bb == b]
+        blk_s = [w for bb, _, w in f.events(lambda w: w in d["stw"]) if bb == b]
+        d.update(b=b, i=i, e=e, lmw=blk_l, stw=blk_s)
+        hsites.append(d)
+    wrappers = {}
+    for g in P.all_fns():
+        if g is f or not g.blocks:
+            continue
+        hs = [e for _, _, e in g.calls("SimTK::System::handleEvents")]
+        ps = [p_[0] for p_ in g.d.get("params", [])]
+        if len(hs) == 1 and len(ps) >= 2 and var_of(call_args(hs[0])[1]) in ps and var_of(call_args(hs[0])[2]) in ps:
+            wrappers[g.id] = (g, hs[0], ps.index(var_of(call_args(hs[0])[1])), ps.index(var_of(call_args(hs[0])[2])))
+    for b, i, e in f.calls():
+        w = wrappers.get(e.get("fid"))
+        if not w:
+            continue
+        g, h, kc, ki = w
+        a = call_args(e)
+        if e.get("op") == "()":
+            a = a[1:]           # the callee object comes first for operator()
+        d = describe(g, h)
+        d.update(b=b, i=i, e=e, cause=a[kc], ids=a[ki], via=g.name)
+        hsites.append(d)
+    hcalls = [(d["b"], d["i"], d["e"]) for d in hsites]
+    chk.shape(len(hcalls) == len(DISPATCH), "SWITCH", "handleEvents-sites=%d" % len(DISPATCH), f.loc, "found %d dispatch sites (direct or through a forwarding wrapper)" % len(hcalls))
     reinit = [(b, i, e) for b, i, e in f.calls("SimTK::Integrator::reinitialize")]
     chk.shape(len(reinit) == 1, "SWITCH", "one-reinitialize", f.loc, "one reinitialize site after the switch")
     for status, (cause, ids) in sorted(DISPATCH.items()):
@@ -104,7 +150,8 @@ def dispatch(chk, P):
         if len(mine) != 1:
             continue
         b, i, e = mine[0]
-        a = call_args(e)
+        d = [x for x in hsites if x["e"] is e][0]
+        a = [d["state"], d["cause"], d["ids"]]
         site = "%s:%d" % (f.file, e["line"])
         chk.judge(bool(sx_find(a[0], lambda y: y[0] == "call" and y[1].endswith("::updAdvancedState"))), "SWITCH", "case:%s:on-advanced-state" % status, site,
                   "handlers act on integ->updAdvancedState()")
@@ -117,10 +164,7 @@ def dispatch(chk, P):
         else:
             okid = bool(sx_find(a[2], lambda y: y[0] == "call" and y[1].endswith("::" + ids[5:])))
         chk.judge(okid, "SWITCH", "case:%s:ids=%s" % (status, ids), site, "id list passed is %s" % sx_str(a[2]))
-        rv = var_of(a[4]) if len(a) > 4 else None
-        # results -> lowestModified / shouldTerminate, same results object
-        lm = [w for bb, _, w in f.events(lambda w: bool(ev_write(w)) and var_of(ev_write(w)[0]) is not None and var_of(ev_write(w)[0]) == role.get("lowestModified")) if bb == b]
-        st = [w for bb, _, w in f.events(lambda w: bool(ev_write(w)) and var_of(ev_write(w)[0]) is not None and var_of(ev_write(w)[0]) == role.get("shouldTerminate")) if bb == b]
+        rv, lm, st = d["rv"], d["lmw"], d["stw"]
         ok1 = len(lm) == 1 and bool(sx_find(ev_write(lm[0])[2], lambda y: y[0] == "call" and y[1].endswith("::getLowestModifiedStage") and var_of(y[2]) == rv))
         ok2 = len(st) == 1 and bool(sx_find(ev_write(st[0])[2], lambda y: y[0] == "call" and y[1].endswith("::getExitStatus") and var_of(y[2]) == rv)) and \
             "SimTK::HandleEventsResults::ShouldTerminate" in sx_enums(ev_write(st[0])[2])
@@ -347,11 +391,15 @@ def ties(chk, P):
             tn = f.d["params"][1][0]
             ids = f.d["params"][2][0]
             def cmp_region(op):
-                reg = set()
-                for g in guard_blocks(f, lambda c: bool(sx_find(c, lambda y: y[0] == "op" and y[1] == op and var_of(y[2]) not in (None, tn) and var_of(y[3]) == tn)), 0):
-                    dom = f.dominators()
-                    reg |= {x for x in dom if g in dom[x]}
-                return reg
+                """blocks that execute only when `time <op> tNextEvent` is known to hold -- nested `if`, `if (!(...)) continue;` guard,
+                conjunction with further tests and the mirrored spelling `tNextEvent >= time` are read alike"""
+                flip = {"<=": ">=", "<": ">"}[op]
+                nop, nflip = {"<=": (">", "<"), "<": (">=", "<=")}[op]
+                def states(c, o, fo):
+                    return isinstance(c, list) and len(c) == 4 and c[0] in ("op", "opc") and \
+                        ((c[1] == o and var_of(c[2]) not in (None, tn) and var_of(c[3]) == tn) or (c[1] == fo and var_of(c[2]) == tn and var_of(c[3]) not in (None, tn)))
+                edges = known_edges(f, lambda c: states(c, op, flip), lambda c: states(c, nop, nflip))
+                return {b for b in f.blocks if only_via(f, b, edges)}
             le, lt = cmp_region("<="), cmp_region("<")
             pushes = [(b, e) for b, _, e in f.calls() if e.get("fn", "").endswith("::push_back") and var_of(call_obj(e)) == ids]
             clears = [(b, e) for b, _, e in f.calls() if e.get("fn", "").endswith("::clear") and var_of(call_obj(e)) == ids and f.loop_depth(b) > 0]
